@@ -5,6 +5,15 @@ From Quill Require Import Queue.BQDefs Backend.BEDefs Backend.BEInv Backend.BEDi
 From Quill Require Backend.BEExec.
 Import ListNotations.
 Local Open Scope N_scope.
+From Quill Require TieBE ExpectedBE.
+
+(* T-src: the BackendWorker methods this property's part of M-BE re-states are, statement by statement, the ones the model
+   was written against and compared with (ExpectedBE.v; the whole loop is tied in Properties_C03.C03_tie_backend_loop) *)
+Theorem C16_tie_backend_methods :
+  QuillGen.SrcFacts.sk_be_process_transit_event = Quill.ExpectedBE.sk_be_process_transit_event /\
+  QuillGen.SrcFacts.sk_be_populate_transit_event_from_frontend_queue = Quill.ExpectedBE.sk_be_populate_transit_event_from_frontend_queue.
+Proof. exact (conj TieBE.src_be_process_transit_event TieBE.src_be_populate_transit_event_from_frontend_queue). Qed.
+Print Assumptions C16_tie_backend_methods.
 
 (* enqueued iff the level (static or supplied at run time) is at or above the logger's level at the
    moment of the call (control requests always); otherwise nothing at all happens - no timestamp, no
